@@ -68,6 +68,13 @@ CHECKS = {
             "metadata audit and memory==disk are asserted, for all examples_per_shard values on the path.",
             "z3; real fb writer/reader; single_process=True for the multi-writer call; one live handle",
             "DESIGN.md 3/C08"),
+    "C05": ("symx (finite fork)",
+            "solver-driven exhaustive fork over (reachable file x modification kind x handle) on the real check() with real digests",
+            "Every reachable shard, shard list and the description of committed datasets from three history shapes is modified "
+            "in every listed way and the real check() must raise on the same handle and on a fresh one; the byte-level quantifier "
+            "is discharged by the collision-resistance assumption and C16, as stated in the evidence.",
+            "collision resistance; C16; finite fork (no symbolic bytes); expected description checksums supplied",
+            "DESIGN.md 3/C05"),
 }
 
 PENDING_REASON = "check not built yet in this round (work in progress; see DESIGN.md section 3 for the planned encoding)"
